@@ -122,6 +122,23 @@ def variants_stream(ctx, name, make, count, p_choices=(1, 2, 3), n_range=(36, 70
                 fail("input-mutation", "fit / predict / transform modified the caller's DataFrame")
         except Exception as ex:
             fail("input-mutation", f"raised {type(ex).__name__}: {str(ex)[:120]}")
+        # ---- the composite entry points are what their names say ----
+        try:
+            y_fp = _canon(make().fit_predict(Xn.copy()))
+            if y_fp != ref["predict"]:
+                fail("fit_predict", f"fit_predict(X) gives {str(y_fp)[:140]}, fit(X).predict(X) gives {str(ref['predict'])[:140]}")
+            t_ft = np.asarray(make().fit_transform(Xn.copy()).to_numpy()).tolist()
+            if t_ft != ref["labels"]:
+                fail("fit_transform", "fit_transform(X) differs from fit(X).transform(X)")
+            # update_predict(X2) on a detector fitted on X1 = predict(X2) by a detector fitted on the data combined by index (X2's rows replace / extend X1's)
+            h = n // 2
+            X1, X2 = pd.DataFrame(Xn[:h].copy()), pd.DataFrame(Xn.copy())
+            d_up = make().fit(X1)
+            y_up = _canon(d_up.update_predict(X2))
+            if y_up != ref["predict"]:
+                fail("update_predict", f"fit(first half).update_predict(all rows) gives {str(y_up)[:140]}, a detector fitted on all rows predicts {str(ref['predict'])[:140]}")
+        except Exception as ex:
+            fail("composite-entry", f"raised {type(ex).__name__}: {str(ex)[:120]}")
         # ---- results handed out earlier stay what they were ----
         try:
             d = make().fit(Xn.copy())
